@@ -13,9 +13,10 @@ else
 fi
 [ -x "$W/verif/check" ] || exit 2
 git -C /repo worktree add -q "$W/repo" HEAD || exit 2
+# (a patch written against an older HEAD is applied with --3way)
 # uncommitted verif-tagged export files of /repo's working tree are part of the harness' interface: copy them
 (cd /repo && git ls-files --others --exclude-standard | grep -E '(export[a-z0-9_]*_verif|_verif)\.go$' | while read f; do mkdir -p "$W/repo/$(dirname "$f")"; cp "$f" "$W/repo/$f"; done)
-if ! git -C "$W/repo" apply "$PATCH"; then echo "MUTEST: patch does not apply"; git -C /repo worktree remove --force "$W/repo"; rm -rf "$W"; exit 3; fi
+if ! git -C "$W/repo" apply "$PATCH" 2>/dev/null && ! git -C "$W/repo" apply --3way "$PATCH"; then echo "MUTEST: patch does not apply"; git -C /repo worktree remove --force "$W/repo"; rm -rf "$W"; exit 3; fi
 (cd "$W/verif" && VERIF_REPO="$W/repo" ./check "$ID" "$TIER" 2>&1 | tail -${MUTEST_TAIL:-6})
 if [ -n "$MUTEST_REPLAY_OUT" ]; then r=$(ls "$W/verif/replays/"*.json 2>/dev/null | head -1); [ -n "$r" ] && cp "$r" "$MUTEST_REPLAY_OUT"; fi
 if [ -n "$MUTEST_KEEP" ]; then echo "kept $W"; else git -C /repo worktree remove --force "$W/repo"; rm -rf "$W"; fi
